@@ -187,15 +187,35 @@ def run_case(chk, strategy, storage_kind, d, m, n, subset_kind):
     if S:
         xs = {k: v for k, v in x.items() if k != S[0]}
         snap = copy.deepcopy(xs)
+        del seen_inputs[:]
+        sparse_err = None
         try:
             with warnings.catch_warnings():
                 warnings.simplefilter("ignore")
                 with draws.installed():
                     imp.impute(list(S), xs, n)
-        except Exception:
-            pass
+        except Exception as ex:
+            sparse_err = f"{core.err_kind(ex)}: {ex}"
         if xs != snap or list(xs.keys()) != list(snap.keys()):
             return desc, f"the instance was modified by impute (instance without feature {S[0]!r}: {sorted(map(str, snap))} became {sorted(map(str, xs))})", None
+        # the model inputs for a sparse (river-style) instance: every requested feature is there, taken from the background
+        # (stored now / configured default), everything else is as in the instance
+        if sparse_err:
+            return desc, f"impute raised {sparse_err} for an instance without the requested feature {S[0]!r}", None
+        stored_now = [dict(r) for r in st.get_data()[0]] if strategy != "default" else []
+        for z in seen_inputs:
+            if set(z.keys()) != set(xs.keys()) | set(S):
+                return desc, (f"instance without the requested feature {S[0]!r}: the model input has keys {sorted(map(str, z.keys()))}, expected "
+                              f"{sorted(map(str, set(xs.keys()) | set(S)))}"), None
+            for f in xs:
+                if f not in S and z[f] != xs[f]:
+                    return desc, f"sparse instance: feature {f!r} outside the subset was changed from {xs[f]} to {z[f]}", None
+            for f in S:
+                if strategy == "default":
+                    if not (z[f] == values[f]):
+                        return desc, f"sparse instance: feature {f!r} got {z[f]!r} instead of the configured default {values[f]!r}", None
+                elif not any(f in r and r[f] == z[f] for r in stored_now):
+                    return desc, f"sparse instance: imputed value {z[f]} of feature {f!r} is not the value of that feature in any stored observation", None
 
         boom = {"n": 0}
         orig_fn = imp.model_function
@@ -237,7 +257,7 @@ def run(tier="quick", seed=0, replay=None):
     chk = core.Check("C06", tier, seed, "proof")
     chk.rule = ("(strategy in joint/product/default) x (storage in batch/interval/geom/uniform/sequence, list- and deque-backed) x "
                 "d in 1..4 x stored rows 1..4 x n in 1..3 x subset given as list/set/tuple/empty/full; stored values unique per "
-                "(row, feature) so the source row of every imputed value is observable. Non-trivial: non-empty subset; distinct by hash.")
+                "(row, feature) so the source row of every imputed value is observable; each case also with a SPARSE instance (a requested feature missing from the instance): the model inputs must contain it, from the background. Non-trivial: non-empty subset; distinct by hash.")
     chk.trusted = ["Lean 4.33.0 kernel", "axioms propext/Classical.choice/Quot.sound",
                    "hand-written model Model/Imputer.lean tied by this correspondence", "driver JSON glue; harness.q.Q"]
     chk.assumptions = ["non-modification of instance/subset/storage is established by the correspondence run only (pure model)",
